@@ -209,7 +209,7 @@ pub fn oracle(case: &[u8], obs: &mut Obs) -> Result<(), Fail> {
     {
         let fs = s.map(FastStr::new);
         let string = s.map(|x| x.to_string());
-        let mut run_arr = |api: &str, it: &mut dyn Iterator<Item = sonic_rs::Result<LazyValue>>| -> Result<(), Fail> {
+        let run_arr = |api: &str, it: &mut dyn Iterator<Item = sonic_rs::Result<LazyValue>>| -> Result<(), Fail> {
             for (n, item) in it.enumerate().take(10_000) {
                 match item {
                     Ok(lv) => check_fragment(api, input, lv.as_raw_str().as_bytes(), None, &format!("item {}", n + 1))?,
@@ -224,7 +224,7 @@ pub fn oracle(case: &[u8], obs: &mut Obs) -> Result<(), Fail> {
             run_arr("to_array_iter(&FastStr)", &mut sonic_rs::to_array_iter(fs))?;
             run_arr("to_array_iter(&String)", &mut sonic_rs::to_array_iter(string))?;
         }
-        let mut run_obj = |api: &str, it: &mut dyn Iterator<Item = sonic_rs::Result<(std::borrow::Cow<str>, LazyValue)>>| -> Result<(), Fail> {
+        let run_obj = |api: &str, it: &mut dyn Iterator<Item = sonic_rs::Result<(std::borrow::Cow<str>, LazyValue)>>| -> Result<(), Fail> {
             for (n, item) in it.enumerate().take(10_000) {
                 match item {
                     Ok((k, lv)) => {
